@@ -327,7 +327,9 @@ impl CompilerOperatorsInternal {
         table: NodePtr,
     ) -> Result<Reduction, EvalErr> {
         if let Some(symtable) =
-            proper_list(allocator, table, true).and_then(|t| proper_list(allocator, t[0], true))
+            proper_list(allocator, table, true)
+                .and_then(|t| t.first().copied())
+                .and_then(|t| proper_list(allocator, t, true))
         {
             for kv in symtable.iter() {
                 if let SExp::Pair(hash, name) = allocator.sexp(*kv) {
